@@ -309,7 +309,9 @@ func genC14(seed uint64, r *Rng, idx, vecs int) *C14Case {
 			// a filter whose Go result is a []byte (the value of a filtered expression is then a string)
 			fmt.Sprintf("inc%d | bytesof", i), quote(f.Rel) + " | bytesof",
 			// a name that starts with a slash is still a name below the template's directory
-			quote("/" + f.Rel), `"" | append: "/" | append: ` + quote(f.Rel)}
+			quote("/" + f.Rel), `"" | append: "/" | append: ` + quote(f.Rel),
+			// white space is part of a name: these name other (missing) files
+			quote(f.Rel + " "), quote(" " + f.Rel), fmt.Sprintf(`inc%d | append: "\n"`, i)}
 	}
 	argsFor := func(i int) []string {
 		as := argsFor0(i)
@@ -325,6 +327,12 @@ func genC14(seed uint64, r *Rng, idx, vecs int) *C14Case {
 				rel = "y//../" + rel
 			case strings.HasPrefix(a, `"/`), strings.HasPrefix(a, `"" | append: "/"`):
 				rel = "/" + rel
+			case strings.HasSuffix(a, ` "`):
+				rel = rel + " "
+			case strings.HasPrefix(a, `" `):
+				rel = " " + rel
+			case strings.HasSuffix(a, `| append: "\n"`):
+				rel = rel + `\n` // string literals have no escapes: a backslash and an n
 			}
 			cs.ArgTargets[a] = rel
 		}
